@@ -62,6 +62,22 @@ const char *false_vals[] = { "0", "off", "false", "no" };
 fstate_t *fstate = NULL;
 unsigned char fstate_idx = 0;
 
+#ifdef LIBAST_VERIF
+/* Verification hook (read-only):  copies out the private stack depths and capacities. */
+void
+spifconf_verif_stacks(unsigned int *ctx_depth, unsigned int *ctx_state_cap, unsigned int *fstate_cap,
+                      unsigned int *ctx_count, unsigned int *ctx_cap, unsigned int *builtin_count, unsigned int *builtin_cap)
+{
+    if (ctx_depth) *ctx_depth = (unsigned int) ctx_state_idx;
+    if (ctx_state_cap) *ctx_state_cap = (unsigned int) ctx_state_cnt;
+    if (fstate_cap) *fstate_cap = (unsigned int) fstate_cnt;
+    if (ctx_count) *ctx_count = (unsigned int) ctx_idx;
+    if (ctx_cap) *ctx_cap = (unsigned int) ctx_cnt;
+    if (builtin_count) *builtin_count = (unsigned int) builtin_idx;
+    if (builtin_cap) *builtin_cap = (unsigned int) builtin_cnt;
+}
+#endif
+
 /***** The Config File Section *****/
 /* This function must be called before any other spifconf_*() function.
    Otherwise you will be bitten by dragons.  That's life. */
